@@ -4,6 +4,7 @@ import EaselModel.Msa.LemmasRc
 import EaselModel.Msa.LemmasRbb
 import EaselModel.Msa.LemmasFrag
 import EaselModel.Msa.LemmasTags
+import EaselModel.Msa.LemmasConv2
 /-! Histories: every alignment reachable from a well-formed one by ANY chain of (successful) transformations is well
     formed, digital rows keep valid codes, and mode and alphabet stay consistent. -/
 namespace EaselModel.Msa
@@ -15,6 +16,7 @@ structure AbcOk (a : Abc) : Prop where
   compl_closed : ∀ compl, a.complement = some compl → ∀ x, x < a.Kp → (compl.getD x 0).toNat < a.Kp
   K_lt : a.K < a.Kp
   Kp_pos : 0 < a.Kp
+  degen : a.degenOk
 
 /-- the invariant of a history: well formed; digital mode comes with an alphabet whose codes the rows hold; text mode
     comes without alphabet -/
@@ -37,6 +39,10 @@ inductive Step : Msa → Msa → Prop where
   | flushLeft (m : Msa) : m.isDigital = true → (flushLeftInserts m).st = .ok → Step m (flushLeftInserts m).msa
   | markFragOld (m : Msa) (isFrag : Nat → Bool) : Step m (markFragmentsOld m isFrag)
   | seqSubset (m : Msa) (useme : List Bool) (b : Msa) : sequenceSubset m useme = .ok b → Step m b
+  | degen2X (m : Msa) : (convertDegen2X m).st = .ok → Step m (convertDegen2X m).msa
+  | defWgts (m : Msa) : Step m (setDefaultWeights m)
+  | symConv (m : Msa) (olds news : Bytes) : (∀ x ∈ news, x ≠ 0) → (symConvert m olds news).st = .ok →
+      Step m (symConvert m olds news).msa
 
 /-- a history -/
 inductive Steps : Msa → Msa → Prop where
@@ -265,6 +271,100 @@ theorem seqSubset_inv (m : Msa) (useme : List Bool) (b : Msa) (h : sequenceSubse
   · intro htx
     exact inv.txt (by rw [← hd]; exact htx)
 
+theorem degen2X_inv (m : Msa) (hok : (convertDegen2X m).st = .ok) (inv : Inv m) : Inv (convertDegen2X m).msa := by
+  have hd : m.isDigital = true := by
+    cases h : m.isDigital with
+    | true => rfl
+    | false => simp [convertDegen2X, h] at hok
+  obtain ⟨a, hA, habc, hc⟩ := inv.dig hd
+  have e : convertDegen2X m = { msa := { m with rows := m.rows.map (degen2XRow a) }, st := .ok } := by
+    simp [convertDegen2X, hd, habc]
+  rw [e]
+  refine ⟨convertDegen2X_wf a hA.degen m inv.wf hd, ?_, ?_, inv.gsND, inv.grND⟩
+  · intro _
+    refine ⟨a, hA, habc, ?_⟩
+    intro r hr x hx
+    simp only [List.mem_map] at hr
+    obtain ⟨r0, hr0, rfl⟩ := hr
+    simp only [degen2XRow, List.mem_map] at hx
+    obtain ⟨y, hy, rfl⟩ := hx
+    exact (degen2X_cell a hA.degen y).2.2.2.2.2.2 (hc r0 hr0 y hy)
+  · intro h
+    have : Msa.isDigital { m with rows := m.rows.map (degen2XRow a) } = true := hd
+    rw [this] at h; cases h
+
+theorem defWgts_inv (m : Msa) (inv : Inv m) : Inv (setDefaultWeights m) := by
+  have hdig : (setDefaultWeights m).isDigital = m.isDigital := (setDefaultWeights_spec m).2.2.1
+  have hterm : (setDefaultWeights m).rowTerm = m.rowTerm := by simp [Msa.rowTerm, hdig]
+  have wf := inv.wf
+  refine ⟨?_, ?_, ?_, inv.gsND, inv.grND⟩
+  · exact {
+      nseq_pos := wf.nseq_pos
+      flags_lt := by have := wf.flags_lt; simp only [setDefaultWeights]; omega
+      rows_len := wf.rows_len
+      rows_ok := by rw [hterm]; exact wf.rows_ok
+      sqname_len := wf.sqname_len
+      wgt_len := by simp [setDefaultWeights, wf.wgt_len]
+      sqacc_len := wf.sqacc_len
+      sqdesc_len := wf.sqdesc_len
+      ss_len := wf.ss_len
+      sa_len := wf.sa_len
+      pp_len := wf.pp_len
+      ss_ok := wf.ss_ok
+      sa_ok := wf.sa_ok
+      pp_ok := wf.pp_ok
+      ss_cons_ok := wf.ss_cons_ok
+      sa_cons_ok := wf.sa_cons_ok
+      pp_cons_ok := wf.pp_cons_ok
+      rf_ok := wf.rf_ok
+      mm_ok := wf.mm_ok
+      gc_ok := wf.gc_ok
+      gr_len := wf.gr_len
+      gr_ok := wf.gr_ok
+      gs_len := wf.gs_len }
+  · intro h; exact inv.dig (by rw [← hdig]; exact h)
+  · intro h; exact inv.txt (by rw [← hdig]; exact h)
+
+theorem symConv_inv (m : Msa) (olds news : Bytes) (hn : ∀ x ∈ news, x ≠ 0) (hok : (symConvert m olds news).st = .ok)
+    (inv : Inv m) : Inv (symConvert m olds news).msa := by
+  have hd : m.isDigital = false := by
+    cases h : m.isDigital with
+    | false => rfl
+    | true => simp [symConvert, h] at hok
+  have hc : ¬ ((olds.length ≠ news.length && news.length ≠ 1) = true) := by
+    intro hbad
+    unfold symConvert at hok
+    simp only [hd, Bool.false_eq_true, if_false, hbad, if_true] at hok
+    cases hok
+  have hlen : olds.length = news.length ∨ news.length = 1 := by
+    by_cases h1 : olds.length = news.length
+    · exact Or.inl h1
+    · by_cases h2 : news.length = 1
+      · exact Or.inr h2
+      · exfalso; apply hc; simp [h1, h2]
+  have wf := inv.wf
+  have e : symConvert m olds news = { msa := { m with rows := m.rows.map (fun r => r.map (symConvChar olds news)) }, st := .ok } := by
+    simp only [symConvert, hd, Bool.false_eq_true, if_false, hc, symConvert_rows m wf olds news]
+  rw [e]
+  have hdig : Msa.isDigital { m with rows := m.rows.map (fun r => r.map (symConvChar olds news)) } = false := hd
+  have ht : Msa.rowTerm { m with rows := m.rows.map (fun r => r.map (symConvChar olds news)) } = 0 := by
+    simp [Msa.rowTerm, hdig]
+  have ht0 : m.rowTerm = 0 := by simp [Msa.rowTerm, hd]
+  refine ⟨{ wf with rows_len := by simp [wf.rows_len], rows_ok := ?_ }, ?_, fun _ => inv.txt hd, inv.gsND, inv.grND⟩
+  · intro r hr
+    simp only [List.mem_map] at hr
+    obtain ⟨r0, hr0, rfl⟩ := hr
+    have h0 := wf.rows_ok r0 hr0
+    refine ⟨by simp [h0.1], ?_⟩
+    intro c hcm
+    simp only [List.mem_map] at hcm
+    obtain ⟨x, hx, rfl⟩ := hcm
+    rw [ht]
+    have hx0 := h0.2 x hx
+    rw [ht0] at hx0
+    exact symConvChar_ne_zero olds news hn hlen x hx0
+  · intro h; rw [hdig] at h; cases h
+
 theorem step_inv (m m' : Msa) (h : Step m m') (inv : Inv m) : Inv m' := by
   cases h with
   | col mask hm hok => exact columnSubset_inv m mask hm hok inv
@@ -283,6 +383,9 @@ theorem step_inv (m m' : Msa) (h : Step m m') (inv : Inv m) : Inv m' := by
   | flushLeft hd hok => exact flushLeft_inv m hd hok inv
   | markFragOld isFrag => exact markFragOld_inv m isFrag inv
   | seqSubset useme _ hb => exact seqSubset_inv m useme m' hb inv
+  | degen2X hok => exact degen2X_inv m hok inv
+  | defWgts => exact defWgts_inv m inv
+  | symConv olds news hn hok => exact symConv_inv m olds news hn hok inv
 
 /-- every history keeps the invariant -/
 theorem steps_inv (m m' : Msa) (h : Steps m m') (inv : Inv m) : Inv m' := by
